@@ -107,6 +107,7 @@ class Thing(models.Model):
     g = models.CharField(max_length=80, null=True)
     l = models.CharField(max_length=80, null=True)
     a = models.ForeignKey(Other, null=True, on_delete=models.CASCADE, related_name="things")
+    a2 = models.ForeignKey(Other, null=True, on_delete=models.CASCADE, related_name="+")      # a second route into Other
 
     class Meta:
         app_label = "djapp"
